@@ -66,8 +66,10 @@ func (s *Imports) Reserve(path string, aliases ...string) (string, error) {
 		return "", errors.New("ambient import already exists")
 	}
 
-	if alias := s.findByAlias(alias); alias != nil {
-		return "", errors.New("ambient import collides on an alias")
+	if alias != "_" && alias != "." {
+		if alias := s.findByAlias(alias); alias != nil {
+			return "", errors.New("ambient import collides on an alias")
+		}
 	}
 
 	s.imports = append(s.imports, &Import{
